@@ -144,23 +144,34 @@ Definition cover (ds : dstore) (a : nat) (p : list Z) : list Z :=
 (* ---------- SPEC: the property, stated on the bytes ---------- *)
 (* nothing decodable is stored under the chunk's name: absent, truncated, garbage *)
 Definition undecodable (lo : lowres) : bool := match lo with LRaise _ => true | LArray _ _ => false end.
+(* the request for the chunk fails at store level (unreachable / unauthorised): by the class of the failure itself,
+   not by what an error map makes of it *)
+Definition store_level (lo : lowres) : bool :=
+  match lo with
+  | LRaise e => isinst e K_StoreUnavailable || isinst e R_ConnectionError || isinst e R_ConnectTimeout
+  | LArray _ _ => false
+  end.
 (* decodable, but not what the metadata promises *)
 Definition mismatched (lo : lowres) : bool :=
   match lo with LArray s d => negb s || negb d | LRaise _ => false end.
 Definition spec_cfg (ds : dstore) : LostMap.cfg :=
   {| c_chunks := d_chunks ds; c_win := d_win ds; c_miss := fun a id => undecodable (d_low ds a id); c_dat := d_dat ds |}.
 Definition spec_must_fail (ds : dstore) : bool :=
-  existsb (fun ai => mismatched (d_low ds (fst ai) (snd ai))) (needed ds).
+  existsb (fun ai => mismatched (d_low ds (fst ai) (snd ai)) || store_level (d_low ds (fst ai) (snd ai)))
+          (needed ds).
 
 (* ---------- wire ---------- *)
-(* (store chunks win data files) with files = ((array id (descr fortran shape) file?) ...), file? = () | (bytes);
+(* (store chunks win data files) with files = ((array id (descr fortran shape) file?) ...), file? = () | (bytes) | exception code;
    chunks not listed are healthy.
    -> (errors shape vis weights flags spec_vis spec_weights spec_flags spec_must_fail needed-count lostmap_is_modelled) *)
-Definition file_entry := (nat * list Z * hdr * option bytes)%type.
+Inductive fstate := FAbsent | FBytes (b : bytes) | FRaise (e : exn).   (* FRaise: the request itself fails (HTTP status, OS error) *)
+Definition file_entry := (nat * list Z * hdr * fstate)%type.
 Definition to_file_entry (x : sx) : file_entry :=
   match x with
-  | L [a; id; want; f] => (to_nat a, to_Zs id, to_hdr want, match f with L [b] => Some (to_Zs b) | _ => None end)
-  | _ => (99%nat, [], mkhdr [] false [], None)
+  | L [a; id; want; f] =>
+      (to_nat a, to_Zs id, to_hdr want,
+       match f with L [b] => FBytes (to_Zs b) | I code => FRaise (to_exn (I code)) | _ => FAbsent end)
+  | _ => (99%nat, [], mkhdr [] false [], FAbsent)
   end.
 Fixpoint find_file (files : list file_entry) (a : nat) (id : list Z) : option file_entry :=
   match files with
@@ -170,10 +181,12 @@ Fixpoint find_file (files : list file_entry) (a : nat) (id : list Z) : option fi
 Definition low_of_files (s : store) (files : list file_entry) (a : nat) (id : list Z) : lowres :=
   match find_file files a id with
   | None => LArray true true
+  | Some (_, _, want, FRaise e) => LRaise e
   | Some (_, _, want, f) =>
+      let ob := match f with FBytes b => Some b | _ => None end in
       match s with
-      | SS3 => low_of_object parse_hdr_c f want
-      | _ => low_of_file parse_hdr_c f want
+      | SS3 => low_of_object parse_hdr_c ob want
+      | _ => low_of_file parse_hdr_c ob want
       end
   end.
 
